@@ -100,7 +100,8 @@ theorem C14_transition_entry_roundtrip (wl : WL) (n : EvName) (t : Trans)
 /-! ## current: the dirty flag -/
 
 /-- After any sequence of `add_transition` / `remove_transition` / `add_states` calls, callback
-registrations through the machine's dynamic methods, model state changes and reads, the next read of
+registrations through the machine's dynamic methods, model state changes, read-only observers
+(diagram rendering …), pickle / deepcopy restores and reads, the next read of
 `markup` shows the states, transitions and models of the *current* object state (and `initial`/`name`
 when set); the machine-level lists and options are those captured by the constructor. -/
 theorem C14_current (wl : WL) (c0 : Cfg) (ops : List Op) :
